@@ -141,6 +141,22 @@ class LifecycleMonitor:
                 self.v(c, 'count', 'C05|count_active_orders-differs-from-active-list', {'count': cnt, 'seen': len(seen)})
         c.count('c05_syncs')
 
+    def pruned(self, c, ostate, exchange, symbol):
+        """right after the framework pruned its active list: the orders it reports as active for the symbol
+        must be exactly the non-final ones (a final order still listed is reported as active to strategies)"""
+        if symbol not in self.symbols:
+            return
+        reg = c.scratch['registry']
+        lst = ostate.get_active_orders(exchange, symbol)
+        c.count('c05_prune_checks')
+        finals = [o for o in lst if o.status in FINAL]
+        if finals:
+            self.v(c, 'final-still-listed', f'C05|final-order-still-in-active-list-after-pruning|status={finals[0].status}|n={min(len(finals), 3)}',
+                   {'symbol': symbol, 'ids': [str(o.id) for o in finals][:4], 'list_len': len(lst)})
+        model = {id(r.order) for r in reg.active(symbol)}
+        if {id(o) for o in lst if o.status == ACTIVE} != model:
+            self.v(c, 'lost-order', 'C05|active-list-after-pruning-differs-from-non-final-set', {'symbol': symbol})
+
     def hook(self, c, strat, hook, extra):
         if hook in ('before', 'after', 'terminate', 'update_position'):
             self.sync(c, hook)
